@@ -161,3 +161,20 @@ Proof.
   intros. unfold archive, parent_new. cbv beta iota zeta. change (load_trees st []) with (@nil ptree).
   destruct (no_parent_reads_everything D chunks tid o st ix cs []) as [P' E]. rewrite E. eexists; reflexivity.
 Qed.
+
+(* the two options reach Parent::new under their own names *)
+Lemma opts_passed_lemma : forall po, opts_passed po = po.
+Proof. intros [a b]. reflexivity. Qed.
+
+Lemma parent_equals_full_cmd_lemma : forall D chunks tid po st ix (parents : list id) (cs1 : list (src D)) skip skip',
+  allP (wf D) cs1 ->
+  (forall pid T, In pid parents -> st pid = Some T ->
+     exists cs0, T = map (read_all D chunks tid) cs0 /\ allP (wf D) cs0 /\
+                 allP (stored D chunks tid st) cs0 /\
+                 allP (fun x1 => forall x0, In x0 cs0 -> sname x0 = sname x1 -> visible D chunks po x1 x0) cs1) ->
+  exists w w',
+    backup_cmd D chunks tid po st ix parents false skip cs1 = Some (tid (map (read_all D chunks tid) cs1), w) /\
+    backup_cmd D chunks tid po st ix parents true skip' cs1 = Some (tid (map (read_all D chunks tid) cs1), w').
+Proof.
+  intros. unfold backup_cmd. rewrite opts_passed_lemma. apply parent_equals_full_lemma; assumption.
+Qed.
